@@ -342,6 +342,51 @@ pub fn run(ctx: &Ctx) -> CheckResult {
         out
     });
     res.absorb(merge_jobs(outs));
+    // bars of EQUAL typical price but different shape (a move / no-move decision between them must not depend
+    // on the price unit).  Only factors that scale this dyadic alphabet exactly (3, 6, 1/8, 3*2^40): with an
+    // inexact factor the rounded scaled inputs no longer have equal typical prices in real arithmetic, and
+    // reporting the move is then the correct answer for that input.
+    if !res.out.failed() {
+        let mut tie = b_mfi();
+        tie.push(Bar::hlcv(4.0, 1.0, 1.0, 3.0));
+        tie.push(Bar::hlcv(2.5, 1.5, 2.0, 1.0));
+        let alpha = b_ops(&tie);
+        let exact = [3.0, 6.0, 0.125, 3.0 * 2f64.powi(40)];
+        let mut jobs2: Vec<Cfg> = vec![];
+        for n in [1usize, 2, 3, 5] {
+            jobs2.push(Cfg::p1(Kind::Mfi, n));
+            jobs2.push(Cfg::p1(Kind::Cci, n));
+            jobs2.push(Cfg::pm(Kind::Kc, n, 2.0));
+        }
+        let depth = if th { 6 } else { 5 };
+        let outs = par_run(ctx, &jobs2, |_, cfg| {
+            let mut out = JobOut::default();
+            let mut ops: Vec<Op> = vec![];
+            for_each_seq_exact(alpha.len(), depth, |seq| {
+                ops.clear();
+                ops.extend(seq.iter().map(|&a| alpha[a as usize]));
+                out.stats.states += 1;
+                out.stats.traces += 1;
+                out.stats.transitions += ops.len() as u64;
+                let base = match run_ops(cfg, &ops) {
+                    Some(b) => b,
+                    None => {
+                        out.fail(Violation::new(PROP, cfg, &ops, "panic").obs("panic".into()).exp("outputs".into()));
+                        return false;
+                    }
+                };
+                for &c in &exact {
+                    if !check_scale(cfg, &ops, &base, c, &mut out) {
+                        return false;
+                    }
+                }
+                true
+            });
+            out.stats.sample(|| format!("{}: all {}^{} streams over bars with tied typical prices x {} exact scale factors", cfg.descr(), alpha.len(), depth, exact.len()));
+            out
+        });
+        res.absorb(merge_jobs(outs));
+    }
 
     // one large window (6001): a normaliser or counter kept in a narrower type is exact for small periods
     if !res.out.failed() {
@@ -481,6 +526,6 @@ pub fn run(ctx: &Ctx) -> CheckResult {
     }
     res.extra.insert("scale_factors".into(), json!(factors.len()));
     res.rule = "case = (configuration, stream, transform): two real instances fed x and c*x (or x+d) step by step; price-valued outputs must scale by c (shift by d), dimensionless ones stay unchanged, within 1e-12 relative to c*M for powers of two and 1e-9 (times the condition number, gated at 1e6) otherwise; SD and Bollinger half-widths compared as variances; non-trivial = step beyond the window".into();
-    res.bounds = format!("all indicators except RSI, periods {{1,2,3,5}}: all 4^{ds} positive scalar streams, all 4^{ds} streams over 3 values + reset, all streams over {{1e300,2e300,9.9e300,4e300}} with factors 2^21, 2^20, 2^-30 (indicators without running sums) (and all 5^(depth-1) streams with a 1e6 spike symbol) / all bar streams of length {dbar} over the grid; scale factors 2^k for k in {} plus 3, 0.1, 7.3, 1e-3; shifts 0.5, 1, 100; period 6001 on a 12007-step stream (factors 3 and 1/8, shift 1000); Maximum(x) = -Minimum(-x) on all 6^{} mixed-sign streams with reset(), and (with Maximum(4x) = 4 Maximum(x)) on tick-grid walks of 3000 / 20000 steps for periods 6..40", if th { "-40..=40".to_string() } else { format!("{:?}", ks) }, if th { 9 } else { 8 });
+    res.bounds = format!("all indicators except RSI, periods {{1,2,3,5}}: all 4^{ds} positive scalar streams, all 4^{ds} streams over 3 values + reset, all streams over {{1e300,2e300,9.9e300,4e300}} with factors 2^21, 2^20, 2^-30 (indicators without running sums) (and all 5^(depth-1) streams with a 1e6 spike symbol) / all bar streams of length {dbar} over the grid; scale factors 2^k for k in {} plus 3, 0.1, 7.3, 1e-3; shifts 0.5, 1, 100; MFI/CCI/KC on all 7^5 / 7^6 streams over bars with tied typical prices and different shapes, factors 3, 6, 1/8, 3*2^40 (exact on that alphabet); period 6001 on a 12007-step stream (factors 3 and 1/8, shift 1000); Maximum(x) = -Minimum(-x) on all 6^{} mixed-sign streams with reset(), and (with Maximum(4x) = 4 Maximum(x)) on tick-grid walks of 3000 / 20000 steps for periods 6..40", if th { "-40..=40".to_string() } else { format!("{:?}", ks) }, if th { 9 } else { 8 });
     res
 }
